@@ -5,6 +5,7 @@ pub mod net;
 pub mod oracles;
 pub mod qlogcap;
 pub mod aasim;
+pub mod pathsim;
 pub mod protsim;
 
 use std::{
@@ -172,15 +173,30 @@ thread_local! {
 
 static INIT: Once = Once::new();
 
+pub fn process_init_pub() {
+    process_init()
+}
+
 fn process_init() {
     INIT.call_once(|| {
-        // Devices::global() spawns a 5 s interval task on the current runtime and starts an OS watcher
-        // thread: force it once on a throw-away runtime so no simulated runtime ever hosts its timer.
-        let rt = tokio::runtime::Builder::new_current_thread().enable_all().build().unwrap();
-        rt.block_on(async {
-            let _ = dquic::qinterface::device::Devices::global();
-        });
-        drop(rt);
+        // Everything here runs on a throw-away thread, so that the thread-local state of the calling thread (its seeded
+        // entropy stream, std's RandomState keys) is exactly what it is for every later run.
+        let _ = std::thread::Builder::new().stack_size(8 << 20).spawn(|| {
+            simcore::entropy::seed_thread_entropy(0x5eed_0000_0000_0001);
+            // Devices::global() spawns a 5 s interval task on the current runtime and starts an OS watcher
+            // thread: force it once on a throw-away runtime so no simulated runtime ever hosts its timer.
+            let rt = tokio::runtime::Builder::new_current_thread().enable_all().build().unwrap();
+            rt.block_on(async {
+                let _ = dquic::qinterface::device::Devices::global();
+            });
+            drop(rt);
+            // One throw-away simulated connection: everything that initialises itself once per process on first use
+            // (ring's and getrandom's availability probes, which draw from the seeded entropy of whichever thread comes
+            // first; rustls' provider; lazy statics of the stack) has then done so before any judged run. Without it the
+            // first run of a process could differ from every later run of the same seed (DESIGN 11.6).
+            let warm = NetSim { mode: Mode::C02 }.generate(0, 0x5eed_0000_0000_0001, simcore::Tier::Quick);
+            let _ = run_case(&warm, Mode::C02);
+        }).map(|h| h.join());
     });
 }
 
